@@ -83,6 +83,16 @@ def token_listing(s: str, dialect: str = "en") -> list[list[int]]:
         printed = []
     # what parse() returns -- and what the builder answers when asked again -- is the listing of exactly the tokens it received
     extra = [f"<result {k} of the formatter is not the listing of the received tokens>" for k, x in enumerate(printed) if x != "\n".join(b.lines)]
+    # a formatter given to the parser after construction receives the same tokens
+    b2 = RecFmt()
+    later = Parser()
+    later.ast_builder = b2
+    try:
+        later.parse(s, TokenMatcher(dialect))
+    except ParserError:
+        pass
+    if b2.lines != b.lines:
+        extra.append("<a builder assigned to parser.ast_builder after construction received other tokens>")
     return [cp(x) for x in b.lines + extra]
 
 
